@@ -50,6 +50,35 @@ CLAIMED = {
         technique="Coq proof (bit-mask lemmas + vm_compute sweep over the regenerated table lifted by "
                   "forallb_forall) + differential correspondence",
     ),
+    "C17": dict(
+        text="Machine-checked theorems (Coq) on the parser model: the log scan depends only on matched events "
+             "(arbitrary noise lines irrelevant); for EVERY event sequence pre++[start]++mid++[ret]++post the "
+             "reported window is exactly (stamp(start), stamp(ret)) and the instructions are start::mid; both "
+             "histograms sum to the instruction count; for each isolation solution every instruction name the "
+             "variant's generator can emit and every pseudo-instruction name is a key of the table the runner "
+             "selects (key sets regenerated from a real Runner.generate_binary run).  Scanners tied to Python's re "
+             "by a differential correspondence on synthesised dumps/logs; implementation results judged against "
+             "the abstract event sequence.",
+        design="4 C17",
+        note="Trusted: Coq kernel, no axioms; gen_tables.py; extraction; LogParse.v hand-models the regexes and "
+             "int() on ASCII input (tied by correspondence); pseudo-instruction name table is an assumption; "
+             "well-formedness of logs as in DESIGN 6.7.  Coverage clause is partial in that sense.",
+        technique="Coq proof (induction over event lists, histogram algebra, vm_compute over regenerated key sets) "
+                  "+ differential correspondence",
+    ),
+    "C18": dict(
+        text="Machine-checked theorems (Coq) on the parser model with explicit Python exception semantics "
+             "(Ret | Raise): for EVERY file state (absent, undecodable, any ASCII content) parse_dump and both "
+             "parse_core_log variants return a record, never raise, and clear the ok flag with default values "
+             "unless extraction succeeded.  Tied to the implementation by a differential correspondence that "
+             "compares the raised exception class (or its absence) over 19 fault classes interleaved with "
+             "well-formed files on persistent parser objects (histories).",
+        design="4 C18",
+        note="Trusted: Coq kernel, no axioms; extraction; LogParse.v mirrors toccata/parser.py after fix: cae6d51 "
+             "(tied by correspondence); OS failures other than a missing/unreadable file are outside the model.",
+        technique="Coq proof (case analysis of every exception path of the mirrored control flow) + differential "
+                  "correspondence on a malformed stream",
+    ),
 }
 
 NOT_YET = "check under construction in this round (see DESIGN.md section 4); not yet claimed"
